@@ -153,7 +153,13 @@ class JokerPrior:
                 raise ValueError(msg)
 
             equiv_unit = self._all_par_unit_equiv[name]
-            if not getattr(pars[name], xu.UNIT_ATTR_NAME).is_equivalent(equiv_unit):
+            par_unit = getattr(pars[name], xu.UNIT_ATTR_NAME)
+            # logarithmic units (dex, mag) count as "equivalent" to their physical
+            # unit, but values in them cannot be converted by a scale factor and a
+            # Normal prior in them is not Normal in the quantity itself
+            if isinstance(par_unit, u.function.FunctionUnitBase) or not (
+                par_unit.is_equivalent(equiv_unit)
+            ):
                 msg = (
                     f"Parameter '{name}' has an invalid unit: The units for this "
                     f"parameter must be transformable to '{equiv_unit}'"
